@@ -25,7 +25,7 @@ func init() {
 		"update-existing-equal", "update-moves-up", "update-moves-down", "init-duplicate-keys",
 		"crash-pop-empty", "crash-peek-empty", "pop-among-ties", "heap-init-slice",
 	}
-	ExpectedProbes["heap/C15"] = []string{
+	ExpectedProbes["heap/C15"] = []string{"iterator-before-any-other-operation", 
 		"update-reorders-under-iter", "push-under-iter", "pop-under-iter", "remove-under-iter",
 		"grow-shrink-under-iter", "iter-panicked", "iter-called-again-after-panic", "iter-exhausted-clean", "iter-gen-wrap",
 	}
@@ -1071,6 +1071,20 @@ func (w *hpW) genWrap(k int) {
 	}
 }
 
+// iterateFirst: the very first thing done with a freshly built container may be to iterate over it -
+// before any Push, Pop or Peek. The reads that follow (the observation after construction peeks) do
+// not change the container, so the iterator goes on undisturbed.
+func (w *hpW) iterateFirst() {
+	if w.r.Focus != "C15" || w.r.Failed() || w.r.Choose(3, "iterate-first") != 2 {
+		return
+	}
+	w.r.Probe("iterator-before-any-other-operation")
+	w.newIter()
+	if len(w.iters) > 0 {
+		w.iterNext(0)
+	}
+}
+
 func (w *hpW) iterAction(preferNext bool) {
 	r := w.r
 	live := len(w.iters)
@@ -1190,11 +1204,13 @@ func heapWorld(r *R) {
 		if r.Failed() {
 			return
 		}
+		w.iterateFirst()
 		w.pqObserve("construction")
 	} else {
 		w.held = map[int]int{}
 		w.maxLen = []int{8, 40, 200, 1000}[r.Choose(4, "max-len")]
 		w.heapInit()
+		w.iterateFirst()
 		w.heapObserve("construction")
 	}
 	if r.Trace {
